@@ -76,10 +76,14 @@ fn gen(rng: &mut Rng, tier: Tier) -> Vec<Case> {
     let (nb, nr) = match tier { Tier::Quick => (500, 200), Tier::Thorough => (8000, 3000) };
     for i in 0..nb {
         let n = if i % 30 == 0 { 0 } else { rng.range(1, 8) as usize };
-        let h = gen_hist(rng, n, 20, false, true, 0);
+        let mut h = gen_hist(rng, n, 20, false, true, 0);
+        // every sixth case sits at the top of the coordinate type, every seventh has a catch-all interval
+        let top = i % 6 == 5;
+        if top { h.lift_to_top(rng.below(3)); }
+        if i % 7 == 6 { h.init.push((if rng.chance(1, 2) { 0 } else { h.min_start() }, u64::MAX - rng.below(2), 4040)); }
         let a = around(&h.endpoints());
         let k = rng.range(1, 8) as usize;
-        let qs = asc_queries(rng, &a, k, 60);
+        let qs = asc_queries(rng, &a, k, if top { u64::MAX - 40 } else { 60 });
         if qs.is_empty() { continue; }
         out.push(Case::new("boundary", enc(&C { h, qs })));
     }
@@ -97,9 +101,12 @@ fn gen(rng: &mut Rng, tier: Tier) -> Vec<Case> {
         let mut h = gen_hist(rng, n, 4000, false, true, base);
         if rng.chance(1, 2) { h.init.push((base, base + 9000, 9999)); } // one huge interval over many small ones
         if rng.chance(1, 3) { for k in 0..6 { h.init.push((base + 100, base + 101 + k * 3, 5000 + k)); } } // equal starts, growing stops
+        let top = base == 0 && rng.chance(1, 4);
+        if top { h.lift_to_top(rng.below(3)); }
+        if rng.chance(1, 8) { h.init.push((0, u64::MAX - rng.below(2), 4040)); } // catch-all interval
         let a = around(&h.endpoints());
         let k = rng.range(2, 40) as usize;
-        let qs = asc_queries(rng, &a, k, base + 20_000);
+        let qs = asc_queries(rng, &a, k, if top { u64::MAX - 40 } else { base + 20_000 });
         if qs.is_empty() { continue; }
         out.push(Case::new("random", enc(&C { h, qs })));
     }
@@ -109,7 +116,7 @@ fn gen(rng: &mut Rng, tier: Tier) -> Vec<Case> {
 pub fn prop() -> PropDef {
     PropDef {
         id: "C17",
-        rule: "corpus, then boundary-directed histories (0-8 intervals, coordinates 0..25, inserts/merges/set_cov) with 1-8 queries of non-decreasing start drawn from {e-1,e,e+1} ∪ {0} and far beyond the last interval, with repeats; then random histories (2-130 intervals, optional huge interval over many small ones, equal starts with growing stops, offsets up to u64::MAX-1e5) with 2-40 ascending queries through ONE cursor starting at 0. Non-trivial: >= 2 stored intervals and >= 2 queries. Thorough adds the exhaustive small scope: every sequence of <= 2 intervals over 0..=3 in several histories with every ascending-start sequence of <= 3 queries. Distinct = distinct input token sequence.",
+        rule: "corpus, then boundary-directed histories (0-8 intervals, coordinates 0..25, inserts/merges/set_cov) with 1-8 queries of non-decreasing start drawn from {e-1,e,e+1} ∪ {0} and far beyond the last interval, with repeats; then random histories (2-130 intervals, optional huge interval over many small ones, equal starts with growing stops, offsets up to u64::MAX-1e5) with 2-40 ascending queries through ONE cursor starting at 0; every sixth boundary history and one in four zero-offset random ones are lifted to the top of u64 (greatest stop u64::MAX-1-{0,1,2}), every seventh / eighth has a catch-all interval [0 or min start, u64::MAX-{0,1}). Non-trivial: >= 2 stored intervals and >= 2 queries. Thorough adds the exhaustive small scope: every sequence of <= 2 intervals over 0..=3 in several histories with every ascending-start sequence of <= 3 queries. Distinct = distinct input token sequence.",
         observable: "per query: Lapper::seek (carried cursor) and Lapper::find results as sorted multisets, or panic",
         gen, exec, shrink, child: None,
     }
